@@ -39,9 +39,9 @@ def cross_cases(draw, tier):
     return case
 
 
-def run_cross(ctx, F, Y0, *, nswp, dr_min, dr_max, cache, I_vld=None, y_vld=None, cb=None, **kw):
+def run_cross(ctx, F, Y0, *, nswp, dr_min, dr_max, cache, I_vld=None, y_vld=None, cb=None, info=None, **kw):
     f = Objective(F)
-    info = {}
+    info = {} if info is None else info
     Y = ctx.lib(teneva.cross, f, Y0, nswp=nswp, dr_min=dr_min, dr_max=dr_max, info=info, cache=cache,
                 I_vld=I_vld, y_vld=y_vld, cb=cb, **kw)
     return Y, info, f
@@ -81,7 +81,10 @@ def prop_cross(case, ctx):
         seen.append(([G.copy() for G in opts["Yold"]], [G.copy() for G in Y], dict(info)))
 
     snap0 = [G.copy() for G in Y0]
-    Yp, ip, fp = run_cross(ctx, F, Y0, nswp=nswp, dr_min=dr_min, dr_max=dr_max, cache=None, I_vld=I_vld, y_vld=y_vld, cb=cb)
+    # the caller keeps one info dictionary: an earlier budgeted / cached run must leave nothing behind that changes this run
+    shared = {}
+    ctx.lib(teneva.cross, Objective(F), Y0, m=7 + case["extra"], nswp=1, info=shared, cache={}, dr_min=dr_min, dr_max=dr_max)
+    Yp, ip, fp = run_cross(ctx, F, Y0, nswp=nswp, dr_min=dr_min, dr_max=dr_max, cache=None, I_vld=I_vld, y_vld=y_vld, cb=cb, info=shared)
     why = oracle.wellformed(Yp, n)
     ctx.check(why is None, f"cross: result not well-formed: {why}")
     ctx.check(all(np.array_equal(a, b) for a, b in zip(Y0, snap0)), "cross modified its initial approximation")
